@@ -4,3 +4,8 @@ const (
 	c27NameComps = 3
 	c27LinkComps = 3
 )
+
+const (
+	c26Comps   = 3
+	c26LexLen  = 7
+)
